@@ -542,9 +542,13 @@ class Connection(object):
         # The following condition being false indicates that an exception
         # handler has initiated a new connection, meaning that we should not
         # interfere with the connection state. Otherwise, make sure that any
-        # current connection is completely terminated.
-        if (self.new_networking_thread or self.networking_thread).interrupt:
-            self.disconnect(immediate=True)
+        # current connection is completely terminated. The lock is held so
+        # that no other thread can begin a new connection between the test
+        # and the call, which would then terminate that new connection.
+        with self._write_lock:
+            if (self.new_networking_thread
+                    or self.networking_thread).interrupt:
+                self.disconnect(immediate=True)
 
         # If allowed by the final exception handler, re-raise the exception.
         if final_handler is None and not caught:
